@@ -99,7 +99,7 @@ Aggs == {"none", "AggCount", "AggSum", "AggLast"}
 MetricValues == {<<"I64">>, <<"F64">>, <<"Seq", "I64">>, <<"Seq", "F64">>, <<"NaN">>, <<"Inf">>}
 MainMetricHdrs == {MetricHdr("AggSum", <<"F64">>), MetricHdr("AggLast", <<"Seq", "F64">>)}
 
-MC_Events ==
+BaseEvents ==
     {[kind |-> "log", extent |-> x, props |-> e] : x \in Extents, e \in ExtraSeqs}
     \cup {[kind |-> "span", extent |-> "range", props |-> SpanHdr \o e] : e \in ExtraSeqs}
     \cup {[kind |-> "metric", extent |-> x, props |-> MetricHdr(a, v) \o e] :
@@ -111,6 +111,34 @@ MC_Events ==
                     x \in OddExtents, h \in MainMetricHdrs, e \in LiteExtras})
     \cup {[kind |-> "metric", extent |-> x, props |-> h \o e] :
               x \in Extents, h \in MainMetricHdrs, e \in ExtraSeqs}
+
+WithCarrier(e, c, n) ==
+    [kind |-> e.kind, extent |-> e.extent, props |-> e.props, carrier |-> c, split |-> n]
+
+\* properties concatenated across the two sides of an And / across event and ambient context
+CarrierCore ==
+    IF Tier = "small" THEN {P("lvl", <<"Level">>), P("metric_unit", <<"Str">>), P("a", <<"I64">>), P("a", <<"Str">>)}
+    ELSE {P("lvl", <<"Level">>), P("lvl", <<"LevelText">>), P("err", <<"Str">>),
+          P("trace_id", <<"IdTyped">>), P("trace_id", <<"IdHex">>), P("metric_unit", <<"Str">>),
+          P("a", <<"I64">>), P("a", <<"Str">>), P("a", <<"MapKey", "I64", "Str">>), P("b", <<"U64Big">>),
+          P("exception.message", <<"Str">>), P("q\"u\\o\nte", <<"I64">>)}
+CarrierHdrs == {[kind |-> "log", extent |-> "point", hdr |-> <<>>],
+                [kind |-> "span", extent |-> "range", hdr |-> SpanHdr],
+                [kind |-> "metric", extent |-> "point", hdr |-> MetricHdr("AggSum", <<"F64">>)]}
+Distinct2(x, y) == x.key # y.key
+\* each side is a map: no key twice within a side; the same key on both sides is the point
+CarrierSides ==
+    {<<<<x>>, <<y>>>> : x, y \in CarrierCore}
+    \cup (IF MaxExtras >= 3
+          THEN {<<<<x, y>>, <<z>>>> : x, y, z \in Core3} \cup {<<<<x>>, <<y, z>>>> : x, y, z \in Core3}
+          ELSE {})
+SideOK(sd) == \A i, j \in 1..Len(sd) : i < j => sd[i].key # sd[j].key
+CarrierEvents ==
+    {WithCarrier([kind |-> h.kind, extent |-> h.extent, props |-> h.hdr \o sd[1] \o sd[2]], c, Len(h.hdr) + Len(sd[1])) :
+        h \in CarrierHdrs, c \in {"and", "ambient"},
+        sd \in {x \in CarrierSides : SideOK(x[1]) /\ SideOK(x[2])}}
+
+MC_Events == {WithCarrier(e, "slice", Len(e.props)) : e \in BaseEvents} \cup CarrierEvents
 
 ASSUME PrintT(<<"TABLES", ToJson(Tables)>>)
 ASSUME PrintT(<<"NEVENTS", Cardinality(MC_Events)>>)
